@@ -223,13 +223,9 @@ impl SimdStringOps {
             }
         }
         
-        // Handle remaining bytes
+        // Handle remaining bytes exactly as the scalar definition does (8-byte words, then bytes)
         let remaining_start = chunks * 32;
-        for &byte in &bytes[remaining_start..] {
-            hash = hash.rotate_left(5).wrapping_add(byte as u64);
-        }
-        
-        hash
+        self.scalar_string_hash(&bytes[remaining_start..], hash)
     }
 
     // =============================================================================
@@ -283,13 +279,9 @@ impl SimdStringOps {
             }
         }
         
-        // Handle remaining bytes
+        // Handle remaining bytes exactly as the scalar definition does (8-byte words, then bytes)
         let remaining_start = chunks * 16;
-        for &byte in &bytes[remaining_start..] {
-            hash = hash.rotate_left(5).wrapping_add(byte as u64);
-        }
-        
-        hash
+        self.scalar_string_hash(&bytes[remaining_start..], hash)
     }
 
     // =============================================================================
@@ -344,13 +336,9 @@ impl SimdStringOps {
             }
         }
         
-        // Handle remaining bytes
+        // Handle remaining bytes exactly as the scalar definition does (8-byte words, then bytes)
         let remaining_start = chunks * 64;
-        for &byte in &bytes[remaining_start..] {
-            hash = hash.rotate_left(5).wrapping_add(byte as u64);
-        }
-        
-        hash
+        self.scalar_string_hash(&bytes[remaining_start..], hash)
     }
 
     // =============================================================================
